@@ -233,10 +233,12 @@ Sub(a, b) ==
         ELSE DictOrRaise(MkD([k \in Keys(a) \cap Keys(b) |-> Sub1(a.items[k], b.items[k])]))
    ELSE IF b.kind = "D" THEN (IF a.kind = "V" THEN Mul(b, -1) ELSE Raise("__sub__:type"))
    ELSE Sub1(a, b)
-(* a.add(b) : in place, element-wise on the data, only for E and K *)
-AddInPlaceDefined(a, b) == (EFit(a, b)) \/ (KSameShape(a, b))
+(* a.add(b) : in place, element-wise on the data, only for E and K; the void result (and None) is neutral: a is left
+   as it is (its chunks too) *)
+AddInPlaceDefined(a, b) == (a.kind \in {"E", "K"} /\ b.kind = "V") \/ (EFit(a, b)) \/ (KSameShape(a, b))
 AddInPlace(a, b) ==
-   IF a.kind = "E" THEN [a EXCEPT !.data = DAddV(a.data, b.data)]
+   IF b.kind = "V" THEN a
+   ELSE IF a.kind = "E" THEN [a EXCEPT !.data = DAddV(a.data, b.data)]
    ELSE IF "kaddzip" \in Wrong /\ a.chunks # b.chunks THEN Raise("K__Result.add:chunks")  \* zip over data_list
    ELSE [a EXCEPT !.data = DAddV(a.data, b.data)]
 Fit(a, b) == EFit(a, b) \/ KFit(a, b) \/ (SameKeys(a, b) /\ \A k \in Keys(a) :
@@ -391,6 +393,10 @@ DoMul(i, s) == /\ More /\ store' = Append(store, Mul(Obj(i), s))
 DoDiv(i, s) == /\ More /\ DivDefined(Obj(i), s)
                /\ store' = Append(store, Div(Obj(i), s))
                /\ hist' = Append(hist, Ev("Div", i, 0, s, "", N + 1)) /\ UNCHANGED <<start, files>>
+(* a.add(VoidResult()) / a.add(None) : nothing changes *)
+DoAddInPlaceVoid(i) == /\ More /\ AddInPlaceDefined(Obj(i), Void)
+                       /\ store' = [store EXCEPT ![i] = AddInPlace(Obj(i), Void)]
+                       /\ hist' = Append(hist, Ev("AddInPlaceVoid", i, 0, 0, "", i)) /\ UNCHANGED <<start, files>>
 (* VoidResult on either side *)
 DoAddVoidRight(i) == /\ More /\ SameVector(Add(Obj(i), Void), Obj(i))
                      /\ hist' = Append(hist, Ev("AddVoidRight", i, 0, 0, "", 0)) /\ UNCHANGED <<start, store, files>>
@@ -428,6 +434,7 @@ DoSaveVoid == /\ More /\ files' = Append(files, SaveNpz(Void))
 Next == \/ \E i, j \in Idx : DoAdd(i, j)
         \/ \E i, j \in Idx : DoSub(i, j)
         \/ \E i, j \in Idx : DoAddInPlace(i, j)
+        \/ \E i \in Idx : DoAddInPlaceVoid(i)
         \/ \E i \in Idx, s \in Scalars : DoMul(i, s)
         \/ \E i \in Idx, s \in Divisors : DoDiv(i, s)
         \/ \E i \in Idx : DoAddVoidRight(i)
@@ -447,7 +454,7 @@ Spec == Init /\ [][Next]_vars
    changed by the last operation (all tuples in the initial state): the other tuples were checked in the predecessor. *)
 FreshIdx == IF Len(hist) = 0 THEN Idx
             ELSE LET e == hist[Len(hist)] IN
-                 IF e.op \in {"SaveNpz", "SaveVoid"} \/ e.out = 0 THEN {} ELSE {e.out}
+                 IF e.op \in {"SaveNpz", "SaveVoid", "AddInPlaceVoid"} \/ e.out = 0 THEN {} ELSE {e.out}
 Inv1(i) == i \in FreshIdx
 Inv2(i, j) == i \in FreshIdx \/ j \in FreshIdx
 Inv3(i, j, k) == i \in FreshIdx \/ j \in FreshIdx \/ k \in FreshIdx
@@ -493,6 +500,7 @@ LawDiv == \A i \in FreshIdx : \A s \in Divisors : DivDefined(Obj(i), s) =>
 LawVoidNeutral == /\ \A i \in FreshIdx : LET a == Obj(i) IN
                         /\ SameVector(Add(a, Void), a) /\ SameVector(Add(Void, a), a)
                         /\ SameVector(Sub(a, Void), a) /\ SameVector(Sub(Void, a), Mul(a, -1))
+                        /\ (AddInPlaceDefined(a, Void) => AddInPlace(a, Void) = a)
                   /\ (Len(hist) = 0 =>
                         /\ Add(Void, Void) = Void /\ Sub(Void, Void) = Void
                         /\ \A s \in Scalars : Mul(Void, s) = Void
